@@ -85,9 +85,18 @@ Definition lit_chunk (variant : N) (s : str) : str :=
     else flat_map (fun c => if c =? 34 then [92; 34] else if c =? 39 then [34; 39; 34] else if c =? 37 then [92; 37] else [c]) s
   else if variant =? 2 then (* mysql, duckdb *)
     flat_map (fun c => if c =? 39 then [39; 39] else if c =? 37 then [37; 37] else [c]) s
-  else                      (* clickhouse *)
+  else if variant =? 3 then (* clickhouse *)
     if existsb is_alnum s then 39 :: s ++ [39]
-    else flat_map (fun c => if c =? 39 then [92; 39; 92; 39] else [c]) s.
+    else flat_map (fun c => if c =? 39 then [92; 39; 92; 39] else [c]) s
+  (* the same three after fixes/C02-N10: a quote is no longer escaped for SQL here (translate_literal does it, once) *)
+  else if variant =? 4 then
+    if existsb is_alnum s then 34 :: s ++ [34]
+    else flat_map (fun c => if c =? 34 then [92; 34] else [c]) s
+  else if variant =? 5 then
+    flat_map (fun c => if c =? 37 then [37; 37] else [c]) s
+  else
+    if existsb is_alnum s then 39 :: s ++ [39]
+    else flat_map (fun c => if c =? 39 then [39; 39] else [c]) s.
 
 Definition item_text (tbl : list (str * str)) (variant : N) (it : ditem) : option str :=
   match it with
@@ -128,3 +137,7 @@ Definition spec_table_covers : bool :=
       forallb (fun s => existsb (fun p => leqb (fst p) (snd s)) t0) spec_table &&
       forallb (fun p => existsb (fun s => leqb (snd s) (fst p) || leqb (drop_last5 (snd s) ++ k_none) (fst p)) spec_table) t0
   end.
+
+(* C02-N10: does this dialect escape a quote of a literal chunk for SQL although translate_literal escapes the whole
+   format again?  (variants 0, 2, 3) *)
+Definition quote_escaped_twice (variant : N) : bool := (variant =? 0) || (variant =? 2) || (variant =? 3).
